@@ -2,6 +2,7 @@
 //!
 //!   ty  ::= t | ts | tw | ta | u | h <tag> <n> aty^n ty | p <n> ty^n | o ty | e <n> ty^n | v ty | a | k
 //!         | r <n> ty     (t = String, ts = &'static str, tw = Cow<'static, str>, ta = Arc<str>; r = [T; n])
+//!         | sv ty        (StaticVec<T>; value = <n> val^n; only at top level or as the one child of a top-level element)
 //!         | x aty ty     (attribute spreading: `view.add_any_attr(attr)`; value = attribute value, then the view's value)
 //!   aty ::= base | base~<f><c><k>      base ::= s:<name> | os:<name> | b:<name> | c | oc | tc | y | oy | py | opy
 //!           <f> = Rust type of the string value: g String, r &'static str, w Cow<'static, str>, a Arc<str>, o Oco<'static, str>
@@ -128,6 +129,8 @@ pub enum TyD {
     Keyed,
     /// `inner.add_any_attr(attr)`: the attribute is spread over the top-level elements of `inner`
     Spread(ATy, Box<TyD>),
+    /// `StaticVec<T>` (no marker node; values are `ValD::Vec`)
+    SVec(Box<TyD>),
 }
 
 #[derive(Clone, Debug, PartialEq, Eq)]
@@ -252,6 +255,10 @@ impl TyD {
             TyD::Unit => out.push("u".into()),
             TyD::Any => out.push("a".into()),
             TyD::Keyed => out.push("k".into()),
+            TyD::SVec(t) => {
+                out.push("sv".into());
+                t.tokens(out);
+            }
             TyD::Spread(a, t) => {
                 out.push("x".into());
                 out.push(a.token());
@@ -304,6 +311,7 @@ impl TyD {
             "u" => TyD::Unit,
             "a" => TyD::Any,
             "k" => TyD::Keyed,
+            "sv" => TyD::SVec(Box::new(TyD::parse(t)?)),
             "x" => {
                 let a = ATy::parse(t.next()?)?;
                 TyD::Spread(a, Box::new(TyD::parse(t)?))
@@ -342,7 +350,7 @@ impl TyD {
             TyD::Spread(_, t) => t.depth(),
             TyD::Elem(_, _, c) => 1 + c.depth(),
             TyD::Tuple(ts) | TyD::Either(ts) => 1 + ts.iter().map(|t| t.depth()).max().unwrap_or(0),
-            TyD::Opt(t) | TyD::Vec(t) => 1 + t.depth(),
+            TyD::Opt(t) | TyD::Vec(t) | TyD::SVec(t) => 1 + t.depth(),
         }
     }
     /// contains an `Arc<str>` text (its `Owned` type differs from `String`'s, so it is kept out of
@@ -351,7 +359,7 @@ impl TyD {
         match self {
             TyD::TextK(TextKind::Arc) => true,
             TyD::Text | TyD::TextK(_) | TyD::Unit | TyD::Any | TyD::Keyed => false,
-            TyD::Arr(_, t) | TyD::Opt(t) | TyD::Vec(t) | TyD::Spread(_, t) => t.has_arc(),
+            TyD::Arr(_, t) | TyD::Opt(t) | TyD::Vec(t) | TyD::Spread(_, t) | TyD::SVec(t) => t.has_arc(),
             TyD::Elem(_, _, c) => c.has_arc(),
             TyD::Tuple(ts) | TyD::Either(ts) => ts.iter().any(|t| t.has_arc()),
         }
@@ -363,7 +371,7 @@ impl TyD {
             TyD::Arr(_, t) | TyD::Spread(_, t) => t.has_keyed(),
             TyD::Elem(_, _, c) => c.has_keyed(),
             TyD::Tuple(ts) | TyD::Either(ts) => ts.iter().any(|t| t.has_keyed()),
-            TyD::Opt(t) | TyD::Vec(t) => t.has_keyed(),
+            TyD::Opt(t) | TyD::Vec(t) | TyD::SVec(t) => t.has_keyed(),
         }
     }
     /// contains an attribute item whose type-erased (`into_cloneable_owned`) Rust type is not the one
@@ -378,7 +386,7 @@ impl TyD {
         };
         match self {
             TyD::Text | TyD::TextK(_) | TyD::Unit | TyD::Any | TyD::Keyed => false,
-            TyD::Arr(_, t) | TyD::Opt(t) | TyD::Vec(t) => t.has_oco(),
+            TyD::Arr(_, t) | TyD::Opt(t) | TyD::Vec(t) | TyD::SVec(t) => t.has_oco(),
             TyD::Spread(a, t) => a_oco(a) || t.has_oco(),
             TyD::Elem(_, ats, c) => ats.iter().any(a_oco) || c.has_oco(),
             TyD::Tuple(ts) | TyD::Either(ts) => ts.iter().any(|t| t.has_oco()),
@@ -392,14 +400,14 @@ impl TyD {
             match t {
                 TyD::Any => true,
                 TyD::Text | TyD::TextK(_) | TyD::Unit | TyD::Keyed | TyD::Elem(..) => false,
-                TyD::Arr(_, t) | TyD::Opt(t) | TyD::Vec(t) | TyD::Spread(_, t) => reaches_any(t),
+                TyD::Arr(_, t) | TyD::Opt(t) | TyD::Vec(t) | TyD::Spread(_, t) | TyD::SVec(t) => reaches_any(t),
                 TyD::Tuple(ts) | TyD::Either(ts) => ts.iter().any(reaches_any),
             }
         }
         match self {
             TyD::Text | TyD::TextK(_) | TyD::Unit | TyD::Any | TyD::Keyed => false,
             TyD::Spread(_, t) => reaches_any(t) || t.has_spread_any(),
-            TyD::Arr(_, t) | TyD::Opt(t) | TyD::Vec(t) => t.has_spread_any(),
+            TyD::Arr(_, t) | TyD::Opt(t) | TyD::Vec(t) | TyD::SVec(t) => t.has_spread_any(),
             TyD::Elem(_, _, c) => c.has_spread_any(),
             TyD::Tuple(ts) | TyD::Either(ts) => ts.iter().any(|t| t.has_spread_any()),
         }
@@ -411,7 +419,18 @@ impl TyD {
             TyD::Text | TyD::TextK(_) | TyD::Unit | TyD::Elem(..) => true,
             TyD::Arr(_, t) | TyD::Spread(_, t) => t.stable_top(),
             TyD::Tuple(ts) => ts.iter().all(|t| t.stable_top()),
-            TyD::Opt(_) | TyD::Either(_) | TyD::Vec(_) | TyD::Any | TyD::Keyed => false,
+            TyD::Opt(_) | TyD::Either(_) | TyD::Vec(_) | TyD::SVec(_) | TyD::Any | TyD::Keyed => false,
+        }
+    }
+    /// contains a `StaticVec` (the model covers it at top level / as the one child of a top-level
+    /// element only: kept out of `AnyView` contents)
+    pub fn has_svec(&self) -> bool {
+        match self {
+            TyD::SVec(_) => true,
+            TyD::Text | TyD::TextK(_) | TyD::Unit | TyD::Any | TyD::Keyed => false,
+            TyD::Arr(_, t) | TyD::Opt(t) | TyD::Vec(t) | TyD::Spread(_, t) => t.has_svec(),
+            TyD::Elem(_, _, c) => c.has_svec(),
+            TyD::Tuple(ts) | TyD::Either(ts) => ts.iter().any(|t| t.has_svec()),
         }
     }
     /// an upper bound of the number of top-level elements of a value (2 = "several")
@@ -419,7 +438,7 @@ impl TyD {
         match self {
             TyD::Text | TyD::TextK(_) | TyD::Unit => 0,
             TyD::Elem(..) => 1,
-            TyD::Any | TyD::Keyed | TyD::Vec(_) => 2,
+            TyD::Any | TyD::Keyed | TyD::Vec(_) | TyD::SVec(_) => 2,
             TyD::Arr(n, t) => (n * t.max_top_elems()).min(2),
             TyD::Opt(t) | TyD::Spread(_, t) => t.max_top_elems(),
             TyD::Tuple(ts) => ts.iter().map(|t| t.max_top_elems()).sum::<usize>().min(2),
@@ -447,6 +466,10 @@ impl TyD {
         };
         match self {
             TyD::Text | TyD::TextK(_) | TyD::Unit | TyD::Any | TyD::Keyed => {}
+            TyD::SVec(t) => {
+                out.insert("static-vec".into());
+                t.type_tags(out);
+            }
             TyD::Arr(_, t) | TyD::Opt(t) | TyD::Vec(t) => t.type_tags(out),
             TyD::Spread(a, t) => {
                 out.insert(if **t == TyD::Any { "spread-any" } else { "spread" }.into());
@@ -619,7 +642,7 @@ impl ValD {
                 let i: usize = t.next()?.parse().ok()?;
                 ValD::Either(i, Box::new(ValD::parse(ts.get(i)?, t)?))
             }
-            TyD::Vec(ty) => {
+            TyD::Vec(ty) | TyD::SVec(ty) => {
                 let n: usize = t.next()?.parse().ok()?;
                 let mut vs = vec![];
                 for _ in 0..n {
@@ -852,7 +875,7 @@ impl Gen<'_> {
                 let p = if Some(i) == pi { pv } else { None };
                 ValD::Either(i, Box::new(self.val(&ts[i], p, depth.saturating_sub(1))))
             }
-            TyD::Vec(t) => {
+            TyD::Vec(t) | TyD::SVec(t) => {
                 let pv: &[ValD] = match prev {
                     Some(ValD::Vec(v)) => v,
                     _ => &[],
